@@ -129,6 +129,16 @@ def merge_round(rep, pid, cases, tier, tagsrc='gen'):
             for j, (b, af) in enumerate(zip(o['before'], o['after'])):
                 if b != af:
                     fails.append(('inputs', 'input %d changed by from_sequence (status %s)' % (j, o['status'])))
+            if pid == 'C13':
+                # a merge of one input is a merge too: the single input stays as it was
+                e1 = SM.build_inputs(c)[:1]
+                b1 = SM._snap(e1[0])
+                try:
+                    M.dm().DcmMetaExtension.from_sequence(e1, c['dim'])
+                except Exception:
+                    pass
+                if SM._snap(e1[0]) != b1:
+                    fails.append(('inputs', 'the input of a one-element from_sequence changed'))
             if o['status'] == 'ok' and pid == 'C13':
                 o2 = SM.run_merge(c)
                 if o2['status'] == 'ok':
